@@ -101,7 +101,7 @@ TEXT = {
         'design_ref': 'DESIGN.md §4 C19',
     },
     'C20': {
-        'text': 'The single-use rule of Prio3 and Prio2 is proved for all histories (Verus). For Poplar1, Verus proves on the extracted is_agg_param_valid, for every history, level and candidate set, that the result is exactly: empty history, or strictly deeper than the MOST RECENT parameter and every prefix extends one of its candidates (IdpfInput::prefix uninterpreted, BTreeSet as a set); Kani additionally proves on the compiled function on the real is_agg_param_valid that a non-empty history admits a parameter only if its level is strictly greater than the MOST RECENT one (every u16 level, histories of up to 3 parameters with empty candidate sets: bounded) and that an empty history admits everything.',
+        'text': 'Proof, with IdpfInput abstracted to a bit string with prefix(), len() and a strict total order. The single-use rule of Prio3 and Prio2 is proved for all histories (Verus). For Poplar1, Verus proves on the extracted is_agg_param_valid, for every history, level and candidate set, that the result is exactly: empty history, or strictly deeper than the MOST RECENT parameter and every prefix extends one of its candidates (IdpfInput::prefix uninterpreted, BTreeSet as a set); Kani additionally proves on the compiled function on the real is_agg_param_valid that a non-empty history admits a parameter only if its level is strictly greater than the MOST RECENT one (every u16 level, histories of up to 3 parameters with empty candidate sets: bounded) and that an empty history admits everything.',
         'note': 'try_from_prefixes is proved (Verus) to accept exactly non-empty, same-length (1..65536 bits), strictly increasing prefix lists whose count fits u32. IdpfInput::prefix (bitvec slicing) is an assumed uninterpreted function and the Ord/Eq of IdpfInput an assumed strict total order.',
         'technique': 'function contracts with a loop invariant on extracted real code (Verus) + contract harness on the real function (Kani)',
         'design_ref': 'DESIGN.md §4 C20',
